@@ -35,14 +35,27 @@ class Seq:
         return G.conj(self.filters)
 
     def category_tests(self):
-        """Names of the TokenCategory members the elements are compared with (== tests in the filters)."""
-        out = set()
-        for f in self.filters:
-            for a in G.atoms_of(f):
-                for pre, suf in ((f'{ELT}.category == TokenCategory.', ''), ('TokenCategory.', f' == {ELT}.category')):
-                    if a.startswith(pre) and a.endswith(suf):
-                        out.add(a[len(pre):len(a) - len(suf)] if suf else a[len(pre):])
-        return out
+        """Names of the TokenCategory members whose elements the filters ADMIT, when the filters restrict the category at all
+        (categories are mutually exclusive: `cat != PITCH and cat == ALTERATION` admits ALTERATION only).  Empty set: no
+        restriction by category."""
+        f = self.filter()
+        ats = G.atoms_of(f)
+        cat = {}
+        for a in ats:
+            for pre, suf in ((f'{ELT}.category == TokenCategory.', ''), ('TokenCategory.', f' == {ELT}.category')):
+                if a.startswith(pre) and a.endswith(suf):
+                    cat[a] = a[len(pre):len(a) - len(suf)] if suf else a[len(pre):]
+        if not cat:
+            return set()
+        others = [a for a in ats if a not in cat]
+
+        def admits(true_atom):
+            val = {a: True for a in others}
+            val.update({a: (a == true_atom) for a in cat})
+            return G.evaluate(f, val)
+        if admits(None):
+            return set()            # an element of none of the tested categories passes: not a restriction
+        return {k for a, k in cat.items() if admits(a)}
 
     def last_sort(self):
         return self.sorts[-1] if self.sorts else None
@@ -203,6 +216,15 @@ def export_paths(ctx, fi, sources, limit=20000) -> List[ExportPath]:
             continue
         if any('@iter' in n.id for n in ast.walk(sp.value) if isinstance(n, ast.Name)):
             raise AnalysisError(f'{fi.loc}: {fi.qualname} builds its result in a loop the element-wise model does not follow')
+        # a local that survived the substitution stands for a container that is filled in place: not followed element-wise
+        import builtins
+        bound = {x.id for c in ast.walk(sp.value) if isinstance(c, ast.comprehension) for x in ast.walk(c.target) if isinstance(x, ast.Name)}
+        bound |= {a.arg for l in ast.walk(sp.value) if isinstance(l, ast.Lambda) for a in l.args.args}
+        for n in ast.walk(sp.value):
+            if isinstance(n, ast.Name) and n.id not in bound and n.id not in fi.all_params and not hasattr(builtins, n.id) \
+                    and ctx.prog.resolve(fi.module, n.id) is None and '#' not in n.id and '@' not in n.id:
+                raise AnalysisError(f'{fi.loc}: {fi.qualname} builds its result through the local container `{n.id}` '
+                                    f'(filled in place): the element-wise model does not follow it')
         out.append(ExportPath(sp, pieces_of(sp.value, sources)))
     if not out:
         raise AnalysisError(f'{fi.loc}: {fi.qualname} has no returning path')
